@@ -22,3 +22,9 @@ EQUIVALENTS = [
     e("eq-units-ne", ["C12", "C13"], R, "        if k % 2 == 1:\n            units[idx1], units[idx2] = units[idx2], units[idx1]", "        if not k % 2 != 1:\n            units[idx1], units[idx2] = units[idx2], units[idx1]"),
     e("eq-check-not-eq", ["C03"], F, "if not self.mesh.allclose(other.mesh):", "if self.mesh.allclose(other.mesh) is False or not self.mesh.allclose(other.mesh):"),
 ]
+
+EQUIVALENTS += [
+    e("eq-index2point-form", ["C01", "C07"], M, "point = self.region.pmin + np.add(index, 0.5) * self.cell", "point = np.asarray(index) * self.cell + self.cell / 2 + self.region.pmin"),
+    e("eq-point2index-temp", ["C01", "C07"], M, "index = np.floor((point - self.region.pmin) / self.cell).astype(int)", "rel = np.subtract(point, self.region.pmin)\n        index = np.floor(rel / self.cell).astype(int)"),
+    e("eq-cells-rename", ["C01"], M, "np.linspace(pmin + cell / 2, pmax - cell / 2, n)\n                for pmin, pmax, cell, n in zip(", "np.linspace(lo + 0.5 * dx, hi - 0.5 * dx, cnt)\n                for lo, hi, dx, cnt in zip("),
+]
